@@ -1139,6 +1139,31 @@ func gstatus(gid int64) string {
 	return ""
 }
 
+// gwhere names the innermost frames of a goroutine (for reports).
+func gwhere(gid int64) string {
+	buf := make([]byte, 1<<18)
+	n := runtime.Stack(buf, true)
+	buf = buf[:n]
+	needle := []byte("goroutine " + strconv.FormatInt(gid, 10) + " [")
+	i := bytes.Index(buf, needle)
+	if i < 0 {
+		return "?"
+	}
+	lines := strings.Split(string(buf[i:]), "\n")
+	var fns []string
+	for j := 1; j < len(lines) && len(fns) < 4; j += 2 {
+		if lines[j] == "" {
+			break
+		}
+		f := lines[j]
+		if k := strings.LastIndex(f, "("); k > 0 {
+			f = f[:k]
+		}
+		fns = append(fns, f)
+	}
+	return strings.Join(fns, " < ")
+}
+
 func parkedInChan(st string) bool {
 	return strings.HasPrefix(st, "chan receive") || strings.HasPrefix(st, "chan send") || strings.HasPrefix(st, "select")
 }
@@ -1452,7 +1477,8 @@ func (s *Sim) watchdog() {
 		if stalled < 2 || s.aborted || cur.state != stRunnable || atomic.LoadInt32(&cur.inServer) <= 0 || atomic.LoadInt32(&cur.simWait) > 0 || atomic.LoadInt32(&cur.waking) != 0 || atomic.LoadInt32(&s.inGate) > 0 {
 			continue
 		}
-		if !blockedInRuntime(gstatus(cur.gid)) {
+		status := gstatus(cur.gid)
+		if !blockedInRuntime(status) {
 			continue
 		}
 		// deschedule the holder from outside
@@ -1469,7 +1495,7 @@ func (s *Sim) watchdog() {
 		atomic.StoreInt32(&cur.chanEnd, 0)
 		cur.state = stChan
 		cur.implicit = true
-		cur.blockedOn = "a blocking call inside uninstrumented code"
+		cur.blockedOn = "a blocking call inside uninstrumented code (" + status + ": " + gwhere(cur.gid) + ")"
 		cur.idx++
 		s.steps++
 		// nobody holds the baton while the decision is made: a task released
